@@ -13,6 +13,10 @@
 pub enum InternalErrorKind { MMR }
 impl InternalErrorKind { #[verifier::external_body] pub fn other(&self, e: MMRError) -> (r: Error) { unimplemented!() } }
 impl PartialEq for Byte32 { #[verifier::external_body] fn eq(&self, o: &Byte32) -> (r: bool) ensures r == (*self == *o) { unimplemented!() } }
+impl vstd::std_specs::cmp::PartialEqSpecImpl for Byte32 {
+    open spec fn obeys_eq_spec() -> bool { true }
+    open spec fn eq_spec(&self, o: &Byte32) -> bool { *self == *o }
+}
 pub uninterp spec fn b_extra_fields(b: &BlockView) -> usize;
 pub uninterp spec fn b_extension(b: &BlockView) -> Option<Seq<u8>>;           // the extension bytes, if the field is present
 pub uninterp spec fn b_extra_hash(b: &BlockView) -> Byte32;
